@@ -767,7 +767,11 @@ class Permutation(base.Recombinator):
     super()._on_bound()
     self._random = random if self.seed is None else random.Random(self.seed)
     if self.where.sym_hasattr('seed'):
-      self.where.rebind(seed=self.seed, skip_notification=True)
+      # NOTE: the filter must re-create its random generator from the new seed
+      # (`skip_notification` would also skip its `_on_bound`); only the
+      # notification of the parent (this object) is suppressed.
+      self.where.rebind(
+          seed=self.seed, notify_parents=False, raise_on_no_change=False)
 
   def recombine(
       self,
